@@ -68,7 +68,7 @@ def number_matches(text, value, fmt):
     if d is None:
         return False
     try:
-        unit = N.resolution(fmt)
+        unit = N.resolution_at(fmt, Fraction(value))
     except Exception:
         unit = Fraction(1, 10**6)
     return abs(d - Fraction(value)) <= unit
